@@ -86,6 +86,7 @@ class MafReader:
             add_error(error)
 
         # get the column names
+        column_names_line_number = self.__line_number
         if self.__next_line is not None:
             column_names = self.__next_line.split(MafRecord.ColumnSeparator)
             self.__next_line__()
@@ -105,7 +106,7 @@ class MafReader:
                         MafValidationErrorType.SCHEME_MISMATCHING_NUMBER_OF_COLUMN_NAMES,
                         "Found '%d' columns but expected '%d'"
                         % (len(column_names), len(scheme_column_names)),
-                        line_number=self.__line_number - 1,
+                        line_number=column_names_line_number,
                     )
                 )
             else:
@@ -119,7 +120,7 @@ class MafReader:
                                 "Found column with name '%s' but expected '%s' for "
                                 "the '%d'th column"
                                 % (column_name, scheme_column_name, i + 1),
-                                line_number=self.__line_number - 1,
+                                line_number=column_names_line_number,
                             )
                         )
         else:
